@@ -152,18 +152,46 @@ def system_search(run, rnd, dates, n_pops):
                             f"pension contribution {x[i]} exceeds rate x ceiling = {cap[i]} at {date}", {**rep, "row": i})
             except KeyError:
                 pass
-            # Elterngeld <= maximum + bonuses
-            try:
-                eg = params["elterngeld"]
-                hi = float(eg["höchstbetrag"])
-                x = res["elterngeld_m"].to_numpy()
-                bonus = res["elterngeld_geschwisterbonus_m"].to_numpy() + res["elterngeld_mehrlingsbonus_m"].to_numpy()
-                if (x > hi + bonus + 1.0).any():
-                    i = int(np.argmax(x > hi + bonus + 1.0))
-                    run.hit({"kind": "exceeds-cap", "node": "elterngeld_m"},
-                            f"Elterngeld {x[i]} exceeds the maximum {hi} plus bonuses {bonus[i]} at {date}", {**rep, "row": i})
-            except KeyError:
-                pass
+            elterngeld_cap(run, res, params, date, rep)
+        # directed: families in which every bonus of Elterngeld applies, claimant's prior income far above the cap
+        for income in (2771.0, 4000.0, 20000.0, 1.0e6):
+            p = popgen.Pop(rnd, date)
+            h = p.new_hh()
+            a, b = p.couple(h, married=True, a1=32, a2=34)
+            p.child(h, [a, b], alter=0)
+            p.child(h, [a, b], alter=rnd.choice([1, 2]))
+            if rnd.random() < 0.5:
+                p.child(h, [a, b], alter=rnd.choice([3, 4, 5]))
+            df = p.frame(relabel=False, shuffle=False).copy()
+            claim = df["p_id"] == a["p_id"]
+            df.loc[claim, "elterngeld_claimed"] = True
+            df.loc[claim, "monate_elterngeldbezug"] = rnd.choice([0, 3, 11])
+            df.loc[claim, "arbeitsstunden_w"] = 0.0
+            df.loc[claim, "bruttolohn_m"] = 0.0
+            df.loc[claim, "elterngeld_nettoeinkommen_vorjahr_m"] = income
+            df["elterngeld_zu_verst_eink_vorjahr_y_sn"] = float(rnd.choice([20000, 100000, 240000]))
+            ok, res = run.attempt(f"Elterngeld family at {date}", popgen.simulate_all, df, date)
+            if ok:
+                run.case({"date": date, "elterngeld-family": common.digest(popgen.frame_to_json(df))})
+                elterngeld_cap(run, res, params, date, {"date": date, "data": popgen.frame_to_json(df)})
+
+
+def elterngeld_cap(run, res, params, date, rep):
+    """Elterngeld <= höchstbetrag + the largest sibling bonus + the multiple-birth bonus, all from the parameters."""
+    try:
+        eg = params["elterngeld"]
+        hi = float(eg["höchstbetrag"])
+        sib = max(float(eg["geschwisterbonus_aufschlag"]) * hi, float(eg["geschwisterbonus_minimum"]))
+        mehr = float(eg["mehrlingbonus"]) * np.maximum(res["_elterngeld_anz_mehrlinge_fg"].to_numpy().astype(float), 0.0)
+        x = res["elterngeld_m"].to_numpy()
+    except KeyError:
+        return
+    cap = hi + sib + mehr + 1.0
+    if (x > cap).any():
+        i = int(np.argmax(x > cap))
+        run.hit({"kind": "exceeds-cap", "node": "elterngeld_m"},
+                f"Elterngeld {x[i]} exceeds the maximum {hi} plus the largest sibling bonus {sib} plus the multiple-birth bonus "
+                f"{mehr[i]} at {date}", {**rep, "row": i})
 
 
 def run(tier: str) -> int:
